@@ -135,6 +135,7 @@ class Repo:
 
     # --------------------------------------------------------------- loading
     def _load(self):
+        parsed = []
         for rel in self.list_files((".py",)):
             src = self.read(rel)
             try:
@@ -146,7 +147,12 @@ class Repo:
             is_pkg = parts[-1] == "__init__"
             if is_pkg:
                 parts = parts[:-1]
-            name = ".".join(parts)
+            parsed.append((rel, src, tree, ".".join(parts), is_pkg))
+        if self.known_functions is not None:
+            from .inline import adopt_inherited_helpers
+
+            adopt_inherited_helpers([(name, tree) for _r, _s, tree, name, _p in parsed], self.known_functions)
+        for rel, src, tree, name, is_pkg in parsed:
             if self.known_functions is not None:
                 # E-INL: calls to private helpers the rule tables do not know are
                 # expanded in place (see engine/inline.py)
